@@ -63,7 +63,8 @@ class C18(Prop):
             ge = min(c["n"], c["g"])
             c["k"] = rng.choice((0, 0, rng.randint(0, ge // 2), rng.randint(ge // 2, ge)))
         if kind == "reductions":
-            c["g"] = rng.choice((3, nsblk, N + 1))
+            # gulps below, at and ABOVE one sub-integration, multiples of it or not: the caller places block ii at ii*gulp
+            c["g"] = rng.choice((3, nsblk, nsblk + 1, nsblk + nsblk // 2 + 1, 2 * nsblk, 2 * nsblk + 3, N + 1))
         return c
 
     def gen(self, rng, tier):
